@@ -59,6 +59,32 @@ CLAIMED["C06"] = dict(
     technique="TLA+ spec mirroring the parser (WKTParser) + TLC exhaustive string enumeration; trace validation of "
               "hook events (layout-stack operations) against the spec's log")
 
+CLAIMED["C03"] = dict(
+    text="Model checking: the WKB specification contains an independent reference encoder (ISO WKB / PostGIS EWKB, "
+         "type words assembled bytewise from the format documents) and a reference decoder; TLC checks on every "
+         "geometry tree x byte order x flavour x SRID of the bounded model that the two halves agree, and then decides "
+         "the real code's observations: Marshal bytes equal Enc(g) byte for byte, decoding returns Canon(g) and "
+         "consumes exactly the encoding, a writer failing at EVERY byte position gets an error reported and only a "
+         "prefix, two concatenated encodings read through 10 reader schedules (1/2/3/7-byte, mixed, as-asked, "
+         "data-with-EOF, zero-length deliveries) decode one after another with exact consumption, hex output is "
+         "the lower-case hex of those bytes and both cases decode, the database/sql wrappers accept exactly their "
+         "own type and return the NDR encoding.",
+    ref="DESIGN.md 3.3, 4-C03",
+    technique="TLA+ spec (WKB: reference encoder + decoder) + TLC; enumeration of geometry trees; observation "
+              "checking of bytes, stream schedules, writer fault positions, hex and SQL wrappers by TLC")
+CLAIMED["C04"] = dict(
+    text="Model checking: TLC enumerates mutations of valid encodings (every truncation, byte substitutions over "
+         "the first 48 positions x 12 values - byte order, type word, flags, SRID, every count field -, "
+         "concatenations) x 4 element-limit settings (incl. disabled, restricted to counts backed by input) x "
+         "NaN mode, checks the reference decoder's own totality invariants, and decides each real decode (direct, "
+         "hex, SQL) by evaluating the reference decoder on the SAME bytes: same accept/reject, too-large reported "
+         "when the spec says so, same geometry and bytes consumed, well-formed result (FlatGeom predicate), "
+         "re-encode/decode stable, TotalAlloc within a bound derived from input length and limits; a decode that "
+         "kills its (address-space limited) process is a reported crash.",
+    ref="DESIGN.md 3.3, 4-C04",
+    technique="TLA+ reference decoder (WKB!Decode) evaluated by TLC on every recorded input; TLC-enumerated "
+              "mutation space; allocation measured around each call")
+
 NOT_YET = {}
 
 
